@@ -561,13 +561,19 @@ def fingerprint(c, r, key, k):
                     for jx in range(i + 1, len(P)):
                         if P[jx] == p.conj() and p.im != 0 and (O[i] > 1 or O[jx] > 1):
                             return '%s combine_conjugates repeated-conjugate-poles' % pub
-        if key in ('ZPK_cc', 'factored_pairs'):
-            z = r['m'].get('as_ZPK')
-            if z and 'ppairs' in z and not z['ppairs'] and not z['zpairs']:
-                return '%s combine_conjugates no-conjugate-pairs float-gain' % pub
-            # the gain printed as a ratio of >= 14-digit integers: a Python float went through sympy
-            if re.search(r'\d{14,}', r['m'][key].get('str', '')):
-                return '%s combine_conjugates no-conjugate-pairs float-gain' % pub
+        if key in ('ZPK_cc', 'factored_pairs') and 'vals' in m:
+            # a Python float went through sympy: the value is off by a relative error below 1e-12 (exact test),
+            # and the gain is printed as a ratio of >= 14-digit integers
+            ob, og = G.des(m['vals'][k]), G.des(r['orig'][k])
+            refs = [og]
+            if not d.is_zero():
+                x = G.des(c['points'][k])
+                refs.append(og * E3(x * d) * E3(x * d))      # together with the (known) flipped delay sign
+            for rf_ in refs:
+                if not rf_.is_zero():
+                    dev = ob / rf_ - G(1)
+                    if Fraction(0) < dev.norm() < Fraction(1, 10 ** 24) and re.search(r'\d{14,}', m.get('str', '')):
+                        return '%s combine_conjugates no-conjugate-pairs float-gain' % pub
     except Exception:
         pass
     return '%s value-changed' % pub
